@@ -185,6 +185,10 @@ def discipline(N: int, k: int, s0: int, s1: int, s2: int, fk: int, fkind: int) -
             P.cover("state-transition-observed")
         P.check(not d.violations, "pool-lists-mutated-only-by-the-pool-with-its-lock-held",
                 lambda: f"{sig}:pool:{d.violations[0]}")
+        # blocking I/O inside the pool's critical section stalls every other thread for its duration and
+        # dead-locks a back end that looks at the pool (repr) while it closes a stream
+        P.check(not d.io_under_lock, "no-network-operation-while-the-pool-lock-is-held",
+                lambda: f"{sig}:io-under-pool-lock:{d.io_under_lock[0]}")
         P.check(not g.violations, "connection-state-changed-only-under-its-state-lock",
                 lambda: f"{sig}:state:{g.violations[0]}")
         for o in outs:
